@@ -105,6 +105,13 @@ func (n *decoratorNode) Call(s containerStore) (err error) {
 	}
 
 	n.state = decoratorOnStack
+	// A decorator that did not complete, for any reason, must be tried
+	// again the next time its values are requested.
+	defer func() {
+		if n.state != decoratorCalled {
+			n.state = decoratorReady
+		}
+	}()
 
 	if err := shallowCheckDependencies(s, n.params); err != nil {
 		return errMissingDependencies{
